@@ -13,7 +13,7 @@ reader may deliver more than MinRead bytes per call: what it delivers then depen
   init:  `new` | `news <size>` | `newb <bytes> <extraCap>`
   ops:   `write <bytes>` `writestr <bytes>` `writebyte <hh>` `writerune <int>` `read <k>` `readbyte` `readrune`
          `unreadbyte` `unreadrune` `next <n>` `truncate <n>` `reset` `grow <n>`
-         `readfrom <bytes> eof|err|neg|over[+] <tail> <k>*` (`+` = greedy after the chunks) `writeto all|over|short|err [k]`
+         `readfrom <bytes> eof|err|neg|over[+] <tail> <chunk>*` (`+` = greedy after the chunks; chunk ::= k | k*n, `0*100` = 100 empty reads) `writeto all|over|short|err [k]`
          `len` `bytes` `string` `cap` `off` `rewrite <pos> <bytes>` `memprobe <n>`
   <bytes> ::= `-` | hex | `x<a>:<n>` (n bytes (a + 13 i) mod 256)
 Byte strings longer than 24 are printed as `#<len>:<fnv1a-64>`.
@@ -92,6 +92,16 @@ structure O where
 
 def O.init : O := ⟨St.zero, Spec.SSt.empty, false, false, false⟩
 
+/-- chunk token `<k>` or `<k>*<n>` (n consecutive calls delivering up to k bytes each; `0*100` = 100 empty reads) -/
+def parseChunk (t : String) : Option (List Nat) :=
+  match t.splitOn "*" with
+  | [k] => (parseNat? k).map (fun k => [k])
+  | [k, n] => do
+    let k ← parseNat? k
+    let n ← parseNat? n
+    if n > 1000 then none else pure (List.replicate n k)
+  | _ => none
+
 def parseOp (ws : List String) : Option Op :=
   match ws with
   | ["write", b] => (parseBytes b).map .write
@@ -113,7 +123,7 @@ def parseOp (ws : List String) : Option Op :=
     let t := if greedy then String.ofList t.toList.dropLast else t
     let term ← (match t with | "eof" => some RTerm.eof | "err" => some .err | "neg" => some .neg | "over" => some .over | _ => none)
     let tail ← parseNat? tail
-    let ks ← ks.mapM parseNat?
+    let ks ← (ks.mapM parseChunk).map List.flatten
     pure (.readFrom ⟨d, ks, tail, term, greedy⟩)
   | ["writeto", "all"] => some (.writeTo .all)
   | ["writeto", "over"] => some (.writeTo .over)
